@@ -50,7 +50,8 @@ theorem reachable_acyclic (ops : List Op) : Acyclic (run Hub.empty ops) :=
   run_acyclic ops Hub.empty empty_acyclic
 
 /-- The same for hubs whose ports may go away while their persisted record is kept (`remove(persisted_data=False)`:
-hub stop, peripheral removed) and come back later (`core.ports.load`, `POST /ports` under the same id, restart): the
+hub stop, peripheral removed) and come back later (`core.ports.load`, `POST /ports` under the same id, restart), and
+for hubs with driver (non-virtual) ports (`addStatic`), which `DELETE` refuses and `PUT /ports` keeps (blanked): the
 other ports may meanwhile have been given expressions that refer to the absent id, so a record can hold the second half
 of a cycle; it goes through the checked assignment again when it is loaded, and every reachable hub is acyclic. -/
 theorem reachable_acyclic_absent (ops : List SOp) : Acyclic (srun {} ops).hub :=
@@ -163,6 +164,34 @@ theorem self_reference_accepted (h : Hub) (id : String) (e : Expr) (hid : h.Has 
     · exact h2 hhas
   rw [if_neg this]
 
+/-! ## Backup restore (`PUT /ports`) on hubs with driver ports -/
+
+/-- `PUT /ports` on a hub with driver (non-virtual) ports, which remain: whatever the hub held, the restored hub is
+acyclic (the remaining ports are blanked, every entry goes through the checked assignment). -/
+theorem restore_acyclic_over (keep : List String) (h : Hub) (entries : List Entry) :
+    Acyclic (restoreOver keep h entries).1 :=
+  restoreOver_acyclic keep h entries
+
+/-- The expressions of the configuration being replaced play no part in a restore: a stale expression on a port that
+remains (one that reads a port which the backup makes read it back, say) cannot get an entry refused. -/
+theorem restore_ignores_stale (keep : List String) (h : Hub) (id : String) (e : Option Expr) (entries : List Entry) :
+    restoreOver keep (h.setExpr id e) entries = restoreOver keep h entries :=
+  restoreOver_ignores_stale keep h id e entries
+
+/-- No false reject under `PUT /ports`: a restore that answers circular-dependency was refused at one definite entry
+`en` of the document, all entries before it were applied, and installing `en`'s expression on the configuration
+restored so far — the blanked remaining ports plus the entries before `en`, nothing of the old configuration — would
+close the cycle `en.id → … → en.id` among distinct registered ports. So a cycle-free document is never refused as
+circular. -/
+theorem restore_no_false_reject (keep : List String) (h : Hub) (entries : List Entry)
+    (hc : (restoreOver keep h entries).2 = .circular) :
+    ∃ pre en post e, entries = pre ++ en :: post ∧ en.expr = .text (some e) ∧
+      (restoreLoop (remaining keep h) pre).2 = .ok ∧
+      TG (Reads ((entryHub (restoreLoop (remaining keep h) pre).1 en).setExpr en.id (some e))) en.id en.id := by
+  obtain ⟨pre, en, post, hsplit, hok, hcirc⟩ := restoreLoop_circular entries _ hc
+  obtain ⟨e, hexpr, hassign⟩ := restoreEntry_circular _ en hcirc
+  exact ⟨pre, en, post, e, hsplit, hexpr, hok, no_false_reject _ en.id e hassign⟩
+
 /-! ## Concurrent requests
 
 `Micro`, `runMicro`, `Shuffle` (`Proofs/Deps.lean`): a request is a list of micro steps — suspensions and **atomic**
@@ -256,6 +285,26 @@ example : (restore hub3 [⟨"x", none, .text (some (.portVal "y"))⟩,
                          ⟨"y", some false, .text (some (.call "MUL" [.portVal "x", .lit "2"]))⟩,
                          ⟨"z", none, .absent⟩]).1.ports.map (fun p => (p.id, p.enabled, p.expr.map Expr.print))
     = [("x", true, some "$y"), ("y", false, none)] := by decide
+
+-- PUT /ports on a hub with driver ports `relay`, `sensor` and the virtual port `mode`; relay currently reads mode.
+-- The backup makes mode read relay and gives relay another expression (entries in id order): cycle-free, restored in full
+def hubDrv : Sys := srun {} [.addStatic "relay", .addStatic "sensor", .hub (.addPort "mode"),
+  .hub (.assign "relay" (some (.call "ADD" [.portVal "mode", .lit "1"])))]
+def backupDrv : List Entry :=
+  [⟨"mode", some true, .text (some (.call "MUL" [.portVal "relay", .lit "2"]))⟩,
+   ⟨"relay", some true, .text (some (.call "ADD" [.portVal "sensor", .lit "1"]))⟩, ⟨"sensor", some true, .empty⟩]
+example : hubDrv.statics = ["relay", "sensor"] := by decide
+example : (sstep hubDrv (.hub (.restore backupDrv))).2 = .ok := by decide
+example : (sstep hubDrv (.hub (.restore backupDrv))).1.hub.ports.map (fun p => (p.id, p.enabled, p.expr.map Expr.print))
+    = [("relay", true, some "ADD($sensor, 1)"), ("sensor", true, none), ("mode", true, some "MUL($relay, 2)")] := by decide
+-- … whereas applying the entries over the remaining ports WITHOUT blanking them first refuses the entry of `mode`
+example : (restoreLoop ⟨hubDrv.hub.ports.filter fun p => hubDrv.statics.contains p.id⟩ backupDrv).2 = .circular := by decide
+-- a backup that does hold a cycle is refused at the entry closing it (hypothesis of `restore_no_false_reject`)
+example : (restoreOver hubDrv.statics hubDrv.hub
+    [⟨"mode", some true, .text (some (.call "MUL" [.portVal "relay", .lit "2"]))⟩,
+     ⟨"relay", some true, .text (some (.call "ADD" [.portVal "mode", .lit "1"]))⟩]).2 = .circular := by decide
+-- DELETE of a driver port is refused
+example : (sstep hubDrv (.hub (.removePort "relay"))).2 = .notRemovable := by decide
 
 -- two concurrent requests `a := $b` (suspends first: its sequence is being cancelled) and `b := $a`: an interleaving
 example : Shuffle [[.suspend, .atomic (.assign "a" (some (.portVal "b")))], [.atomic (.assign "b" (some (.portVal "a")))]]
